@@ -21,6 +21,12 @@ def to_complex(i):
     return i
 
 
+def _const(x, dtype):
+    """Convert a constant to dtype; a Python float becomes a tensor of that dtype directly
+    (tf.cast(python_float, tf.float64) would round it to float32 first)."""
+    return tf.cast(tf.convert_to_tensor(x, dtype_hint=dtype), dtype)
+
+
 def regist_lineshape(name=None):
     """
     It will be used as a wrapper to define various Breit-Wigner functions
@@ -110,7 +116,7 @@ def twoBodyCMmom(m_0, m_1, m_2):
 
 def hFun(s, daug2Mass, daug3Mass):
     _pi = 3.14159265359
-    _pi = tf.cast(_pi, s.dtype)
+    _pi = _const(_pi, s.dtype)
 
     sm = daug2Mass + daug3Mass
     sqrt_s = tf.sqrt(s)
@@ -127,7 +133,7 @@ def hFun(s, daug2Mass, daug3Mass):
 
 def dh_dsFun(s, daug2Mass, daug3Mass):
     _pi = 3.14159265359
-    _pi = tf.cast(_pi, s.dtype)
+    _pi = _const(_pi, s.dtype)
     k_s = twoBodyCMmom(tf.sqrt(s), daug2Mass, daug3Mass)
 
     ret = hFun(s, daug2Mass, daug3Mass) * (
@@ -139,7 +145,7 @@ def dh_dsFun(s, daug2Mass, daug3Mass):
 
 def dFun(s, daug2Mass, daug3Mass):
     _pi = 3.14159265359
-    _pi = tf.cast(_pi, s.dtype)
+    _pi = _const(_pi, s.dtype)
     sm = daug2Mass + daug3Mass
     sm24 = sm * sm / 4.0
     m = tf.sqrt(s)
@@ -174,8 +180,8 @@ def fsFun(s, m2, gam, daug2Mass, daug3Mass):
 # Gounaris-Sakurai model for rho
 def GS(m, m0, g0, q, q0, L, d, c_daug2Mass=0.13957039, c_daug3Mass=0.1349768):
     gamma = Gamma(m, g0, q, q0, L, m0, d)
-    c_daug2Mass = tf.cast(c_daug2Mass, m.dtype)
-    c_daug3Mass = tf.cast(c_daug3Mass, m.dtype)
+    c_daug2Mass = _const(c_daug2Mass, m.dtype)
+    c_daug3Mass = _const(c_daug3Mass, m.dtype)
 
     D = 1.0 + dFun(m0 * m0, c_daug2Mass, c_daug3Mass) * g0 / m0
     E = m0 * m0 - m * m + fsFun(m * m, m0 * m0, g0, c_daug2Mass, c_daug3Mass)
